@@ -325,6 +325,15 @@ TPair ==
   /\ Chk("C14", "ByteIdenticalFiles", Ev.status = "ok" => Ev.same)
   /\ UNCHANGED <<caseId, schema, cols, maxPage, codecN, recs, batches, snk, wc, faultK, rowsTab, clean>>
 
+\* the command line tool's -metadata / -pageheaders output (C16), projected like the independent decode
+TCli ==
+  /\ More /\ Ev.ev = "Cli"
+  /\ l' = l + 1
+  /\ Chk("C16", "CliRuns", Ev.err = "")
+  /\ Chk("C16", "CliMetadataEqualsIndependentDecode", Ev.err = "" => (Ev.meta = Ev.imeta /\ Ev.meta2 = Ev.imeta))
+  /\ Chk("C16", "CliPageHeadersEqualIndependentWalk", Ev.err = "" => Ev.hdrs = Ev.ipages)
+  /\ UNCHANGED <<caseId, schema, cols, maxPage, codecN, recs, batches, snk, wc, faultK, rowsTab, clean>>
+
 TRows ==
   /\ More /\ Ev.ev = "Rows"
   /\ l' = l + 1
@@ -347,14 +356,14 @@ TSinkCall ==
 
 \* ---------------------------------------------------------------- other lines
 TOther ==
-  /\ More /\ Ev.ev \notin {"Reset", "New", "Add", "Write", "Close", "Read", "Rows", "Foreign", "Expect", "Regen", "Pair", "Intro", "Sched", "Stress", "SinkRun", "SinkCall"}
+  /\ More /\ Ev.ev \notin {"Reset", "New", "Add", "Write", "Close", "Read", "Rows", "Foreign", "Expect", "Regen", "Pair", "Intro", "Cli", "Sched", "Stress", "SinkRun", "SinkCall"}
   /\ l' = l + 1
   /\ Chk("HARNESS", "DriverPanic", Ev.ev # "DriverPanic")
   /\ UNCHANGED <<caseId, schema, cols, maxPage, codecN, recs, batches, snk, wc, faultK, rowsTab, clean>>
 
 TDone == /\ l = Len(Trace) + 1 /\ PrintT(<<"TRACEDONE", Len(Trace)>>) /\ UNCHANGED vars
 
-Next == TReset \/ TNew \/ TAdd \/ TWrite \/ TClose \/ TRead \/ TRows \/ TForeign \/ TExpect \/ TRegen \/ TPair \/ TIntro \/ TSched \/ TStress \/ TSinkRun \/ TSinkCall \/ TOther \/ TDone
+Next == TReset \/ TNew \/ TAdd \/ TWrite \/ TClose \/ TRead \/ TRows \/ TForeign \/ TExpect \/ TRegen \/ TPair \/ TIntro \/ TCli \/ TSched \/ TStress \/ TSinkRun \/ TSinkCall \/ TOther \/ TDone
 Spec == Init /\ [][Next]_vars
 
 \* every line was consumed: one state per line plus the initial state
